@@ -12,6 +12,7 @@ import FlatccModel.Trie
 import FlatccModel.TrieGen
 import FlatccModel.Builder
 import FlatccModel.Alloc
+import FlatccModel.StructGraph
 /-! `fmodel`: executes the model's definitions on protocol lines (stdin → stdout, one result line per op line). -/
 open Flatcc Flatcc.Util
 
@@ -484,11 +485,25 @@ def allocOp (args : List String) : String :=
     ",".intercalate outs
   | _ => "bad-op"
 
+/-- sgraph <structs ';' separated; members ',' separated: s = scalar, number = struct index> -/
+def sgraphOp (args : List String) : String :=
+  open Flatcc.StructGraph in
+  match args with
+  | [gs] =>
+    let g : Graph := (gs.splitOn ";").map (fun ms => (ms.splitOn ",").filterMap (fun m =>
+      if m == "s" then some none else if m == "" then none else some (some m.toNat!)))
+    let st := analyzeAll g
+    match st.diags with
+    | [] => s!"ok order={",".intercalate (st.order.map toString)}"
+    | d :: _ => s!"fail first={match d with | .circular => "circular" | .deep => "deep" | .empty => "empty"} diags={st.diags.length}"
+  | _ => "bad-op"
+
 def step (line : String) : String :=
   match line.trimAscii.toString.splitOn " " with
   | "num" :: args => numOp args
   | "build" :: args => buildOp args
   | "alloc" :: args => allocOp args
+  | "sgraph" :: args => sgraphOp args
   | "refmap" :: args => refmapOp args
   | "ident" :: args => identOp args
   | "emit" :: args => emitOp args
